@@ -209,3 +209,48 @@ Theorem parse_denotes is_float atoi (cs : list cl) q f :
   Forall wf_clause cs -> all_ok is_float atoi cs -> length (toks cs) < f ->
   parse_tokens is_float atoi f q (toks cs) = ROk (apply_all q (upds is_float atoi cs)).
 Proof. intros Hw Hok Hf. rewrite parse_run by assumption. now apply run_ok. Qed.
+
+Section Denote2.
+  Variable is_float : bytes -> bool.
+  Variable atoi : bytes -> option Z.
+  Notation eff := (eff is_float atoi).
+
+  Ltac kw_eval k :=
+    repeat match goal with |- context [bytes_eqb (B k) (B ?x)] =>
+      let b := eval vm_compute in (bytes_eqb (B k) (B x)) in change (bytes_eqb (B k) (B x)) with b end.
+
+  Theorem outfile_denotes (append : bool) t : simple t ->
+    eff (B"outfile") ((if append then [bare_tok (B"append")] else []) ++ [t]) = ROk ([], UOutfile (Some (t_str t, append))).
+  Proof.
+    intros Hs. unfold C11_Order.eff.
+    repeat match goal with |- context [bytes_eqb (B"outfile") (B ?k)] =>
+      let b := eval vm_compute in (bytes_eqb (B"outfile") (B k)) in change (bytes_eqb (B"outfile") (B k)) with b end.
+    cbn [orb]. cbn iota.
+    assert (Ha : simple (bare_tok (B"append"))) by (split; [vm_compute; reflexivity|split; [cbn; discriminate|reflexivity]]).
+    destruct append; cbn [app].
+    - rewrite (consume_simple [bare_tok (B"append"); t] (Forall_cons _ Ha (Forall_cons _ Hs (Forall_nil _)))).
+      cbn [t_str bare_tok]. change (bytes_eqb (B"append") (B"append")) with true. reflexivity.
+    - now rewrite (consume_simple [t] (Forall_cons _ Hs (Forall_nil _))).
+  Qed.
+
+  Theorem logformat_denotes t : simple t -> eff (B"logformat") [t] = ROk ([], ULogformat (t_str t)).
+  Proof.
+    intros Hs. unfold C11_Order.eff.
+    repeat match goal with |- context [bytes_eqb (B"logformat") (B ?k)] =>
+      let b := eval vm_compute in (bytes_eqb (B"logformat") (B k)) in change (bytes_eqb (B"logformat") (B k)) with b end.
+    cbn [orb]. cbn iota. now rewrite (consume_simple [t] (Forall_cons _ Hs (Forall_nil _))).
+  Qed.
+End Denote2.
+
+(* ---- the post-checks of Query.parse ---- *)
+Lemma finish_spec q s0 rest : q_select q = s0 :: rest ->
+  let q1 := match q_groupby q with [] => set_group q [s_field s0] (q_groupkey q) | _ => q end in
+  finish q = if match q_orderby q1 with [] => true | ob => existsb (fun s => bytes_eqb ob (s_storage s)) (q_select q1) end
+             then ROk q1 else RErr.
+Proof.
+  intros Hs. unfold finish. rewrite Hs. cbv zeta.
+  destruct (q_orderby (match q_groupby q with [] => _ | _ => q end)); [reflexivity|]. destruct (existsb _ _); reflexivity.
+Qed.
+
+Lemma finish_no_select q : q_select q = [] -> finish q = RErr.
+Proof. intros H. unfold finish. now rewrite H. Qed.
